@@ -103,11 +103,23 @@ type explorer struct {
 	unknowns   int
 	stepsTotal int64
 	maxViol    int
+	vectors    []vector
+	maxVectors int
+	doneSeen   int
+	usesStubs  bool
+}
+
+// vector is a concrete input assignment for a completed path (used to
+// cross-validate the interpreter against the native build).
+type vector struct {
+	Harness string `json:"harness"`
+	Draws   []draw `json:"draws"`
+	End     string `json:"end"`
 }
 
 func newExplorer(harness string) *explorer {
 	e := &explorer{harness: harness, ends: map[string]int{}, reached: map[string]int{}, asserts: map[string]int{},
-		cutReasons: map[string]int{}, unwind: 64, maxSteps: 200_000_000, maxPaths: 1 << 30, maxViol: 5}
+		cutReasons: map[string]int{}, unwind: 64, maxSteps: 200_000_000, maxPaths: 1 << 30, maxViol: 8, maxVectors: 24}
 	e.cond = sync.NewCond(&e.mu)
 	e.work = [][]decision{nil}
 	return e
@@ -172,7 +184,13 @@ func (e *explorer) finish(ps *pathState, res pathResult) {
 	}
 	e.branches += ps.nBranch
 	for _, v := range res.violations {
-		if len(e.violations) < e.maxViol {
+		same := 0
+		for _, o := range e.violations {
+			if o.Label == v.Label {
+				same++
+			}
+		}
+		if same < 2 && len(e.violations) < e.maxViol {
 			e.violations = append(e.violations, v)
 		}
 	}
@@ -559,6 +577,45 @@ func (ps *pathState) recordViolation(kind, label, detail string, model map[strin
 		v.Draws = append(v.Draws, dd)
 	}
 	ps.violations = append(ps.violations, v)
+}
+
+// wantVector decides (under the explorer lock) whether this finished path
+// should contribute a validation vector.
+func (e *explorer) wantVector() bool {
+	e.mu.Lock()
+	defer e.mu.Unlock()
+	e.doneSeen++
+	if len(e.vectors) >= e.maxVectors {
+		return false
+	}
+	n := e.doneSeen
+	// first 8, then powers-of-two spaced
+	return n <= 8 || n&(n-1) == 0 || n%97 == 0
+}
+
+func (ps *pathState) takeVector(end string) {
+	if ps.w.solver == nil || ps.replayDraws != nil {
+		return
+	}
+	if !ps.ex.wantVector() {
+		return
+	}
+	m := ps.model(nil)
+	if m == nil {
+		return
+	}
+	v := vector{Harness: ps.harness, End: end}
+	for _, d := range ps.draws {
+		dd := d
+		if d.t != nil && d.t.op == "var" {
+			dd.Val = m[d.t.name]
+		}
+		dd.t = nil
+		v.Draws = append(v.Draws, dd)
+	}
+	ps.ex.mu.Lock()
+	ps.ex.vectors = append(ps.ex.vectors, v)
+	ps.ex.mu.Unlock()
 }
 
 func sortedKeys(m map[string]int) []string {
